@@ -119,6 +119,24 @@ func mutateFrame(rt *rapid.T, b []byte, slots []spec.Slot, muts *[]string) []byt
 			}
 			cur := getN(b, s.Off, s.Width)
 			v := boundary(rt, "slotval", s.Width, cur, len(b)-s.Off)
+			if s.Class == "len" && s.Width == 2 {
+				// A container that adds up its children's claimed lengths in 16 bits wraps to 0 (or to a small
+				// value) when one child claims 65536 minus the rest: for every enclosing length field L, the values
+				// that make L - cur + v come out as 0, 8 or the container's bare header.
+				var wraps []uint64
+				for _, t := range slots {
+					if t.Class == "len" && t.Width == 2 && t.Off < s.Off && t.Off+2 <= len(b) {
+						if L := getN(b, t.Off, 2); int(L) > s.Off-t.Off && L >= cur {
+							for _, k := range []uint64{0, 4, 8, 16} {
+								wraps = append(wraps, (cur-L+k)&0xffff, (cur-L-k)&0xffff)
+							}
+						}
+					}
+				}
+				if len(wraps) > 0 && gen.Pick(rt, "wrap_container", 3) == 0 {
+					v = wraps[gen.Pick(rt, "wrap_value", len(wraps))]
+				}
+			}
 			if (s.Class == "type" || s.Class == "subtype") && s.Width <= 2 && rapid.Bool().Draw(rt, "type_dense") {
 				// type / subtype codes: every code of the populated range, not only the neighbours of the
 				// current one (message types 0-29, action types 0-27, Nicira subtypes 0-50: the codes a
